@@ -63,3 +63,24 @@ def all_pairs():
                 seen.add(p)
                 out.append(p)
     return out
+
+
+# Loose twins: same core statements, different plumbing (see twin.check_loose).  tag as above.
+LOOSE = {
+    "C19": [(CO, "unify_chunks", EXX, "unify_chunks_expr")],
+    "C22": [("dask/array/_reductions_generic.py", "reduction", "dask/array/_array_expr/_reductions.py", "reduction")],
+    "C23": [("dask/array/rechunk.py", "_compute_rechunk", "dask/array/_array_expr/_rechunk.py", "_compute_rechunk")],
+    "C20": [(SL, "slice_with_int_dask_array_on_axis", SLX, "slice_with_int_dask_array_on_axis"), (CO, "Array.__getitem__", COX, "Array.__getitem__")],
+    "C25": [("dask/array/utils.py", "compute_meta", "dask/array/_array_expr/_utils.py", "compute_meta")],
+}
+
+
+def loose_for(*tags):
+    out = []
+    for t in tags:
+        out.extend(LOOSE.get(t, []))
+    return out
+
+
+def all_loose():
+    return [p for t in LOOSE for p in LOOSE[t]]
